@@ -583,8 +583,21 @@ func ruleSpawnMod(w *World, r *RuleResult) {
 			return
 		}
 		rc := newRedCtx(w, j.fn)
-		usesOff := func(t *T) bool { return t.contains(func(x *T) bool { return x.Op == "p" && x.S == j.off }) }
+		var curPath *Path
+		var usesOff func(t *T) bool
+		usesOff = func(t *T) bool {
+			return t.contains(func(x *T) bool {
+				if x.Op == "loopvar" && curPath != nil {
+					// a running position that starts at the offset
+					if init, _, ok := loopVarSteps(w, j.fn, curPath, x); ok && init.Op != "loopvar" {
+						return usesOff(init)
+					}
+				}
+				return x.Op == "p" && x.S == j.off
+			})
+		}
 		for _, p := range paths {
+			curPath = p
 			for i := range p.Events {
 				e := &p.Events[i]
 				var t *T
